@@ -134,6 +134,20 @@ fn exec_io(sc: &Scenario) -> Report {
                             Err(_) => slack = (t.pos - before) as u64,
                         }
                     }
+                    "read_to_end" => {
+                        // into a Vec that already holds `pre` bytes
+                        let pre = op.n0() as usize;
+                        let (mut v1, mut v2) = (vec![b'#'; pre], vec![b'#'; pre]);
+                        let before = t.pos;
+                        let (r1, r2) = (w.read_to_end(&mut v1), t.read_to_end(&mut v2));
+                        if kind_of(&r1) != kind_of(&r2) || r1.as_ref().ok() != r2.as_ref().ok() || v1 != v2 {
+                            return Err(format!("read_to_end: wrapped {r1:?} vs twin {r2:?}"));
+                        }
+                        match r2 {
+                            Ok(n) => model = model.wrapping_add(n as u64),
+                            Err(_) => slack = (t.pos - before) as u64,
+                        }
+                    }
                     "fill_buf" => {
                         let r1 = w.fill_buf().map(|b| b.to_vec());
                         let r2 = t.fill_buf().map(|b| b.to_vec());
@@ -593,6 +607,9 @@ struct Driver {
     degenerate_splits: StdMutex<u64>,
     started: std::sync::atomic::AtomicU64,
     completed: std::sync::atomic::AtomicU64,
+    /// leaves hand their items over with Folder::consume_iter (like rayon's bridge) instead of
+    /// one consume() per item; 2 = through an iterator with an inexact size_hint
+    leaf_iter_mode: u64,
     pb: ProgressBar,
     bad: StdMutex<Option<String>>,
 }
@@ -676,17 +693,28 @@ fn split_index(drv: &Driver, len: usize) -> usize {
     }
 }
 
+/// fold one leaf: per-item consume() with the in-flight position bound, or consume_iter()
+fn leaf_fold<F: Folder<u32>>(drv: &Driver, mut f: F, items: Vec<u32>) -> F::Result {
+    match drv.leaf_iter_mode {
+        0 => {
+            for it in items {
+                if f.full() {
+                    break;
+                }
+                f = drv.item(|| f.consume(it));
+            }
+        }
+        1 => f = f.consume_iter(items),
+        _ => f = f.consume_iter(items.into_iter().filter(|x| *x != u32::MAX)),
+    }
+    f.complete()
+}
+
 fn drive_rec<C: Consumer<u32>>(drv: &Driver, items: Vec<u32>, c: C, depth: u32) -> C::Result {
     if depth >= drv.max_depth || items.is_empty() || drv.draw(4) == 0 {
         *drv.leaves.lock().unwrap() += 1;
-        let mut f = c.into_folder();
-        for it in items {
-            if f.full() {
-                break;
-            }
-            f = drv.item(|| f.consume(it));
-        }
-        return f.complete();
+        let f = c.into_folder();
+        return leaf_fold(drv, f, items);
     }
     *drv.splits.lock().unwrap() += 1;
     let idx = split_index(drv, items.len());
@@ -700,14 +728,8 @@ fn drive_rec<C: Consumer<u32>>(drv: &Driver, items: Vec<u32>, c: C, depth: u32) 
 fn drive_unindexed_rec<C: UnindexedConsumer<u32>>(drv: &Driver, items: Vec<u32>, c: C, depth: u32) -> C::Result {
     if depth >= drv.max_depth || items.is_empty() || drv.draw(4) == 0 {
         *drv.leaves.lock().unwrap() += 1;
-        let mut f = c.into_folder();
-        for it in items {
-            if f.full() {
-                break;
-            }
-            f = drv.item(|| f.consume(it));
-        }
-        return f.complete();
+        let f = c.into_folder();
+        return leaf_fold(drv, f, items);
     }
     *drv.splits.lock().unwrap() += 1;
     let idx = split_index(drv, items.len());
@@ -787,26 +809,32 @@ impl Producer for VecProducer {
     }
 }
 
-struct CollectC;
-struct CollectF(Vec<u32>);
+/// the user's consumer: collects; counts every item that reaches it; optionally "full" after a
+/// number of items (short-circuiting consumers like find_any)
+#[derive(Clone)]
+struct CollectC {
+    seen: Arc<std::sync::atomic::AtomicU64>,
+    full_after: u64,
+}
+struct CollectF(Vec<u32>, CollectC);
 struct CatR;
 impl Consumer<u32> for CollectC {
     type Folder = CollectF;
     type Reducer = CatR;
     type Result = Vec<u32>;
     fn split_at(self, _index: usize) -> (Self, Self, CatR) {
-        (CollectC, CollectC, CatR)
+        (self.clone(), self, CatR)
     }
     fn into_folder(self) -> CollectF {
-        CollectF(vec![])
+        CollectF(vec![], self)
     }
     fn full(&self) -> bool {
-        false
+        self.seen.load(std::sync::atomic::Ordering::SeqCst) >= self.full_after
     }
 }
 impl UnindexedConsumer<u32> for CollectC {
     fn split_off_left(&self) -> Self {
-        CollectC
+        self.clone()
     }
     fn to_reducer(&self) -> CatR {
         CatR
@@ -815,6 +843,7 @@ impl UnindexedConsumer<u32> for CollectC {
 impl Folder<u32> for CollectF {
     type Result = Vec<u32>;
     fn consume(mut self, item: u32) -> Self {
+        self.1.seen.fetch_add(1, std::sync::atomic::Ordering::SeqCst);
         self.0.push(item);
         self
     }
@@ -822,7 +851,7 @@ impl Folder<u32> for CollectF {
         self.0
     }
     fn full(&self) -> bool {
-        false
+        self.1.seen.load(std::sync::atomic::Ordering::SeqCst) >= self.1.full_after
     }
 }
 impl Reducer<Vec<u32>> for CatR {
@@ -862,6 +891,7 @@ fn exec_rayon(sc: &Scenario) -> Report {
             degenerate_splits: StdMutex::new(0),
             started: Default::default(),
             completed: Default::default(),
+            leaf_iter_mode: sc.c("leaf_iter_mode"),
             pb: pb.clone(),
             bad: StdMutex::new(None),
         });
@@ -871,21 +901,31 @@ fn exec_rayon(sc: &Scenario) -> Report {
         };
         let wrapped = base.progress_with(pb.clone());
         let path = sc.c("path");
+        let seen = Arc::new(std::sync::atomic::AtomicU64::new(0));
+        let full_after = if sc.c("full_after") > 0 { sc.c("full_after") } else { u64::MAX };
+        let user = CollectC { seen: seen.clone(), full_after };
         let got = call(|| match path {
-            0 => wrapped.drive(CollectC),
+            0 => wrapped.drive(user.clone()),
             1 => {
                 let len = IndexedParallelIterator::len(&wrapped);
                 wrapped.with_producer(ProdCb { drv: drv.clone(), len })
             }
-            _ => wrapped.drive_unindexed(CollectC),
+            _ => wrapped.drive_unindexed(user.clone()),
         });
         match got {
             Err(p) => r.violate("C17.no_panic", format!("rayon path {path} panicked: {p}")),
             Ok(v) => {
-                if v != items {
+                let short_circuit = full_after != u64::MAX && path != 1;
+                if !short_circuit && v != items {
                     r.violate("C17.transparency", format!("rayon path {path}: items reaching the consumer {v:?} differ from the source {items:?}"));
                 }
                 let p = pb.position();
+                // items actually transferred: all of them, or (short-circuiting consumer) the
+                // ones that reached the user's consumer
+                let n = if short_circuit { seen.load(std::sync::atomic::Ordering::SeqCst) as usize } else { n };
+                if short_circuit {
+                    r.probe("rayon_short_circuit");
+                }
                 if p != n as u64 {
                     r.violate(
                         "C17.rayon_position",
@@ -977,7 +1017,8 @@ impl Check for C17 {
                 let mut ops = vec![];
                 for _ in 0..n {
                     let cap = *rng.pick(&[0u64, 1, 2, 3, 8, 17, 64]);
-                    ops.push(match rng.weighted(&[10, 4, 4, 2, 8, 8, 6, 3, 2, 5, 2, 1]) {
+                    ops.push(match rng.weighted(&[10, 4, 4, 2, 8, 8, 6, 3, 2, 5, 2, 1, 2]) {
+                        12 => Op::new("read_to_end").n(rng.below(6)),
                         0 => Op::new("read").n(cap),
                         1 => Op::new("read_vectored").n(cap).n(rng.below(5)).n(rng.below(9)),
                         2 => Op::new("read_exact").n(cap),
@@ -1042,6 +1083,8 @@ impl Check for C17 {
                 sc.set("len0", *rng.pick(&[items, items, items + 3]));
                 sc.set("path", rng.below(3));
                 sc.set("max_depth", rng.range(0, 3));
+                sc.set("leaf_iter_mode", rng.below(3));
+                sc.set("full_after", if rng.chance(1, 4) { rng.range(1, items + 1) } else { 0 });
                 sc.set("use_threads", rng.chance(3, 4) as u64);
                 gen_sched_cfg(&mut sc, rng, 300);
                 sc.set("spurious_pm", 0);
@@ -1065,6 +1108,8 @@ impl Check for C17 {
             ("p_short", 0),
             ("p_pending", 0),
             ("max_depth", 0),
+            ("leaf_iter_mode", 0),
+            ("full_after", 0),
             ("n_items", 0),
             ("use_threads", 0),
             ("data_len", 0),
